@@ -641,8 +641,31 @@ def load_width(chk, repo, rule="R01.5"):
     chk.floor(rule, "load() calls in calculate()", n, 2)
 
 
+def address_width(chk, repo, rule="R01.5"):
+    """the address of a memory operand is a pointer: it is computed in 64
+    bits whatever width the value is wanted in (every
+    `self.address.calculate(..., True)`)"""
+    n = 0
+    for fn in repo.all_functions([repo.module("ebpfcat.ebpf")]):
+        for c in walk_no_nested(fn):
+            if isinstance(c, ast.Call) and isinstance(
+                    c.func, ast.Attribute) and c.func.attr == "calculate" \
+                    and unparse(c.func.value).endswith("address") and len(
+                        c.args) >= 2:
+                n += 1
+                ok = isinstance(c.args[1], ast.Constant) and \
+                    c.args[1].value is True
+                chk.ob(rule, func_qual(repo, c), "the address expression is "
+                       "computed in 64 bits", ok, c,
+                       f"`{unparse(c)[:60]}`" + ("" if ok else ": with the "
+                       "width of the value a computed pointer is added up "
+                       "in 32 bits and truncated"))
+    chk.floor(rule, "address computations", n, 2)
+
+
 def r5_signext(chk, repo, d):
     load_width(chk, repo)
+    address_width(chk, repo)
     chk.doc("R01.5", "sign extension after a load: guard, shift amount, "
                      "register view")
     ev = d.ev
@@ -1436,3 +1459,4 @@ EXPLANATION += (
     "a map variable has the size of the descriptor attribute lookup finds, "
     "so a load or store of one operand never covers its neighbour.")
 EXPLANATION += (" Added after wave 9: (R01.5) load() is told the width the caller asked for (the `long` parameter reaches it unchanged); (R01.7) nothing derived from a Constant's value is memoised; (R01.12) the stack slot of a computed value outlives the use of its address (shared with C04/C09).")
+EXPLANATION += (' Added after the last wave: (R01.5) the address of a memory operand is computed in 64 bits.')
